@@ -244,9 +244,10 @@ def _define_tag(serialisable=False):
     class c19_tag:
         """renames the sequences; logs each execution; dies at its kill_at-th execution; fails for ids with 'bad'"""
 
-        def __init__(self, counter_file=None, kill_at=None):
+        def __init__(self, counter_file=None, kill_at=None, transient=False):
             self.counter_file = counter_file
             self.kill_at = kill_at
+            self.transient = transient
 
         def main(self, seqs: UnalignedSeqsType) -> ret:
             src = str(seqs.info.source)
@@ -259,6 +260,8 @@ def _define_tag(serialisable=False):
                     os._exit(9)
             if "bad" in src:
                 raise ValueError("bad input")
+            if "flaky" in src and self.transient:
+                raise ValueError("transient fault")
             return seqs.rename_seqs(lambda x: x + "_t")
 
     return c19_tag
@@ -341,20 +344,23 @@ def _store_meta(path, kind):
     return {"state": state, "n_completed": counts.get(1, 0), "n_not_completed": counts.get(0, 0), "has_log": nlogs > 0, "tables": tables}
 
 
-def _apply(indir, out, kind, counter, kill_at, logger, ids=None, kill_after_writes=None):
+def _listing(ds):
+    """what the store object itself lists (its own, possibly cached, view)"""
+    return {
+        "completed": sorted(os.path.basename(str(m.unique_id)) for m in ds.completed),
+        "not_completed": sorted(os.path.basename(str(m.unique_id)) for m in ds.not_completed),
+    }
+
+
+def _build(indir, out, kind, counter, kill_at, ids, mode, transient, kill_after_writes=None):
     from cogent3 import get_app, open_data_store
 
     tag = _define_tag(serialisable=kind != "dir")
-    if ids is None:
-        ins = open_data_store(indir, suffix="fasta", mode="r")
-    else:
-        # an ordered list of paths: the processing order is the harness's choice
-        ins = [os.path.join(indir, name + ".fasta") for name in ids]
     if kind == "dir":
-        outds = open_data_store(out, suffix="fasta", mode="a")
+        outds = open_data_store(out, suffix="fasta", mode=mode)
         writer = get_app("write_seqs", data_store=outds, format="fasta")
     else:
-        outds = open_data_store(out, mode="a")
+        outds = open_data_store(out, mode=mode)
         writer = get_app("write_db", data_store=outds)
     if kill_after_writes is not None:
         # the process ends right after the store accepted its n-th record (completed or not), before apply_to finishes
@@ -372,12 +378,50 @@ def _apply(indir, out, kind, counter, kill_at, logger, ids=None, kill_after_writ
 
         outds.write = counting(outds.write)
         outds.write_not_completed = counting(outds.write_not_completed)
-    app = get_app("load_unaligned", moltype="dna", format="fasta") + tag(counter_file=counter, kill_at=kill_at) + writer
-    app.apply_to(ins, show_progress=False, logger=None if logger else False)
-    try:
-        outds.close()
-    except Exception:  # noqa: BLE001
-        pass
+    step = tag(counter_file=counter, kill_at=kill_at, transient=transient)
+    app = get_app("load_unaligned", moltype="dna", format="fasta") + step + writer
+    return app, step, outds
+
+
+def _inputs(indir, ids):
+    from cogent3 import open_data_store
+
+    if ids is None:
+        return open_data_store(indir, suffix="fasta", mode="r")
+    # an ordered list of paths: the processing order is the harness's choice
+    return [os.path.join(indir, name + ".fasta") for name in ids]
+
+
+def _apply(indir, out, kind, counter, kill_at, logger, ids=None, kill_after_writes=None, mode="a", transient=False, listing_file=None):
+    app, _, outds = _build(indir, out, kind, counter, kill_at, ids, mode, transient, kill_after_writes)
+    got = app.apply_to(_inputs(indir, ids), show_progress=False, logger=None if logger else False)
+    if listing_file:
+        with open(listing_file, "w") as f:
+            json.dump(_listing(got), f)
+    _finish(outds)
+
+
+def _finish(outds):
+    """what a script does when it is done with a store: release the lock (sqlite) and close"""
+    for name in ("unlock", "close"):
+        try:
+            getattr(outds, name)()
+        except Exception:  # noqa: BLE001
+            pass
+
+
+def _apply_twice(indir, out, kind, c1, c2, logger, first_ids, ids, mode, transient_first, listing_file, mid_file):
+    """the same app / store object is used for an apply_to on a prefix of the inputs and then on all of them"""
+    app, step, outds = _build(indir, out, kind, c1, None, ids, mode, transient_first)
+    app.apply_to(_inputs(indir, first_ids), show_progress=False, logger=None if logger else False)
+    with open(mid_file, "w") as f:
+        json.dump(_store_dump(out, kind), f)
+    step.counter_file = c2
+    step.transient = False
+    got = app.apply_to(_inputs(indir, ids), show_progress=False, logger=None if logger else False)
+    with open(listing_file, "w") as f:
+        json.dump(_listing(got), f)
+    _finish(outds)
 
 
 def _forked(fn):
@@ -416,6 +460,13 @@ def _forked(fn):
     return st, exc
 
 
+def _load(p):
+    if not os.path.exists(p):
+        return None
+    with open(p) as f:
+        return json.load(f)
+
+
 def _lines(p):
     if not os.path.exists(p):
         return []
@@ -450,25 +501,41 @@ def resume_main(spec_path, out_path):
             ref_out = os.path.join(work, "ref" + ext)
             ref_counter = os.path.join(work, "ref.count")
             order = ids if case.get("ordered") else None
-            st, exc = _forked(lambda: _apply(indir, ref_out, kind, ref_counter, None, logger, ids=order))
+            mode1 = case.get("first_mode", "a")
+            mode2 = case.get("second_mode", "a")
+            ref_listing = os.path.join(work, "ref.listing")
+            st, exc = _forked(lambda: _apply(indir, ref_out, kind, ref_counter, None, logger, ids=order, mode=mode1, listing_file=ref_listing))
             rec = {"case": case, "ref_status": st, "ref_exc": exc, "ref_order": _lines(ref_counter), "runs": []}
             if st == {"exit": 0}:
                 rec["ref_store"] = _store_dump(ref_out, kind)
                 rec["ref_meta"] = _store_meta(ref_out, kind)
-                kills = [(k, None) for k in case["kills"]] + [(None, w) for w in case.get("kills_after_write", [])]
-                for k, kw in kills:
-                    tagk = f"k{k}" if kw is None else f"w{kw}"
+                rec["ref_listing"] = _load(ref_listing)
+                kills = [(k, None, None) for k in case["kills"]] + [(None, w, None) for w in case.get("kills_after_write", [])]
+                kills += [(None, None, p) for p in case.get("partials", [])]
+                for k, kw, part in kills:
+                    tagk = f"k{k}" if k is not None else (f"w{kw}" if kw is not None else f"p{part}")
                     out = os.path.join(work, tagk + ext)
                     c1 = os.path.join(work, tagk + ".count1")
                     c2 = os.path.join(work, tagk + ".count2")
-                    st1, exc1 = _forked(lambda: _apply(indir, out, kind, c1, k, logger, ids=order, kill_after_writes=kw))
-                    run = {"k": k, "after_write": kw, "first_status": st1, "first_exc": exc1, "first_executed": _lines(c1)}
-                    try:
-                        run["store_after_kill"] = _store_dump(out, kind)
-                    except Exception as e:  # noqa: BLE001
-                        run["store_after_kill_error"] = f"{type(e).__name__}: {e}"[:300]
-                    st2, exc2 = _forked(lambda: _apply(indir, out, kind, c2, None, logger, ids=order))
-                    run.update(second_status=st2, second_exc=exc2, second_executed=_lines(c2))
+                    lf = os.path.join(work, tagk + ".listing")
+                    run = {"k": k, "after_write": kw, "partial": part, "reuse": bool(case.get("reuse") and part is not None)}
+                    if run["reuse"]:
+                        # one process, one store object, two apply_to calls
+                        mid = os.path.join(work, tagk + ".mid")
+                        st2, exc2 = _forked(lambda: _apply_twice(indir, out, kind, c1, c2, logger, ids[:part], ids, mode2, True, lf, mid))
+                        run.update(first_status={"exit": 0} if os.path.exists(mid) else st2, first_exc=None, first_executed=_lines(c1))
+                        if os.path.exists(mid):
+                            run["store_after_kill"] = _load(mid)
+                    else:
+                        first_ids = order if part is None else ids[:part]
+                        st1, exc1 = _forked(lambda: _apply(indir, out, kind, c1, k, logger, ids=first_ids, kill_after_writes=kw, mode=mode1, transient=True))
+                        run.update(first_status=st1, first_exc=exc1, first_executed=_lines(c1))
+                        try:
+                            run["store_after_kill"] = _store_dump(out, kind)
+                        except Exception as e:  # noqa: BLE001
+                            run["store_after_kill_error"] = f"{type(e).__name__}: {e}"[:300]
+                        st2, exc2 = _forked(lambda: _apply(indir, out, kind, c2, None, logger, ids=order, mode=mode2, listing_file=lf))
+                    run.update(second_status=st2, second_exc=exc2, second_executed=_lines(c2), returned_listing=_load(lf))
                     try:
                         run["store_final"] = _store_dump(out, kind)
                         run["meta_final"] = _store_meta(out, kind)
